@@ -50,7 +50,7 @@ class PathCtx:
     def feasible_full(self, cond):
         """Second opinion including the quantified facts (unknown counts as feasible)."""
         s = z3.Solver()
-        s.set('timeout', 1500)
+        s.set('timeout', 250)
         s.add(*self.pc)
         return s.check(cond) != z3.unsat
 
@@ -200,11 +200,12 @@ class Explorer:
                     work.append(ctx.decisions[:i] + [not ctx.decisions[i]])
         return results
 
-    def explore_nested(self, thunk):
-        """Explore a sub-computation under the current path condition; obligations raised
-        inside are forwarded to the enclosing path."""
+    def explore_nested(self, thunk, assume=()):
+        """Explore a sub-computation under the current path condition (plus `assume`, e.g. the
+        index range of a generic element); obligations raised inside are forwarded to the
+        enclosing path."""
         outer = self.ctx
-        res = self.explore(thunk, base_pc=outer.pc)
+        res = self.explore(thunk, base_pc=list(outer.pc) + list(assume))
         for r in res:
             for ob in r.obligations:
                 outer.obligations.append(ob)
